@@ -863,7 +863,7 @@ func (x *Exec) assign(st *State, lhs, rhs ast.Expr, env *Env) []*State {
 		}
 		c = x.kill(c, lkey, x.Tok(lhs.Pos()))
 		c = c.Bind(lkey, val)
-		if val.K == KSym && !strings.ContainsAny(val.S, "{") {
+		if (val.K == KSym && !strings.ContainsAny(val.S, "{")) || val.K == KConst {
 			c = c.Unbind("~" + lkey) // sub-locations are named after the bound value
 		}
 		for f, t := range fields {
@@ -1082,7 +1082,7 @@ func (x *Exec) LocKey(st *State, e ast.Expr, env *Env) string {
 		} else {
 			return full
 		}
-		if t, ok := st.Store[bk]; ok && t.K == KSym && t.S != "" && !strings.HasPrefix(t.S, "&") && !strings.ContainsAny(t.S, "(@") {
+		if t, ok := st.Store[bk]; ok && t.K == KSym && t.S != "" && !strings.HasPrefix(t.S, "&") && (!strings.ContainsAny(t.S, "(@") || (strings.HasPrefix(t.S, "*") && !strings.Contains(t.S, "@"))) {
 			return t.S + suffix
 		}
 		return bk + suffix
@@ -1134,6 +1134,9 @@ func (x *Exec) valueTerm(st *State, e ast.Expr, env *Env) Term {
 			}
 			return Sym(inner)
 		}
+		if bt.K == KSym {
+			return Sym("*" + bt.S) // the struct a pointer-valued location currently points to
+		}
 	case *ast.CallExpr:
 		if x.P.IsConversion(v) && len(v.Args) == 1 {
 			to, from := x.P.TypeOf(v.Fun), x.P.TypeOf(v.Args[0])
@@ -1169,6 +1172,17 @@ func (x *Exec) valueTerm(st *State, e ast.Expr, env *Env) Term {
 			bk := x.canonEnv(id, env)
 			if bt, ok := st.Store[bk]; ok && bt.K == KSym && bt.S != bk && strings.HasPrefix(key, bk) {
 				return Sym(bt.S + key[len(bk):])
+			}
+		}
+		// an index that is itself a variable location with a known current value:
+		// name the element after that value, so that x[i] before and after i++ differ
+		if ie, ok := v.(*ast.IndexExpr); ok {
+			if _, isConst := x.P.ConstInt(ie.Index); !isConst {
+				ik := x.LocKey(st, ie.Index, env)
+				if it, ok := st.Store[ik]; ok && (it.K == KSym || it.K == KConst) && it.S != ik {
+					bk := x.LocKey(st, ie.X, env)
+					return Sym(x.marked(st, bk+"[]")[0:len(bk)] + "[" + it.S + "]" + x.marked(st, bk+"[]")[len(bk)+2:])
+				}
 			}
 		}
 	}
